@@ -23,7 +23,7 @@ from ..common import HarnessError, Result, Timer, Violation, pmap, silence_labte
 from ..paramtree import build, canon, describe, trees, tree_size
 
 INF = float('inf')
-FULL = [None, True, False, 0, 1, -1, 2 ** 63, 0.0, 1.0, 1.5, 1e-300, INF, '', 'a', 'A', '1', 'None', 'null', 'true',
+FULL = [None, True, False, 0, 1, -1, 2 ** 63, 0.0, 1.0, 1.5, 1e-300, INF, -INF, 'inf', 'Infinity', '-inf', 'nan', 'NaN', '', 'a', 'A', '1', '1.0', 'None', 'null', 'true',
         '[]', 'é', 'a/b', ' ', 'RED', A.Color.RED, A.Color.GREEN, A.Shade.RED, B.Color.RED, A.StrEnumLike.RED]
 SMALL = [None, True, 1, 1.0, '1', 'a', A.Color.RED, A.Shade.RED]
 TINY = [None, 1, '1', A.Color.RED]
